@@ -26,3 +26,14 @@ PROPS["C02"] = dict(
 PROPS["C03"] = dict(
     level_text="Kernel-checked linearity + lifting theorems over the polymod step functions; the finite independence enumeration is evaluated by compiled code (see level_note); correspondence on chosen-syndrome words and random <=5 / <=4 substitutions.",
     level_note=_addr_note, assumptions=COMMON_ASSUME)
+PROPS["C06"] = dict(
+    level_text="Kernel-checked Lean theorems (round trip for every 32-byte key/net/flag; accept-iff; canonical re-encoding) about an executable model of wif.go on top of the Base58 model; correspondence incl. near-valid strings with recomputed checksums.",
+    level_note=_addr_note, assumptions=COMMON_ASSUME)
+_hd_note = ("Trusted: Lean kernel + propext/Classical.choice/Quot.sound; HMAC-SHA512, Hash160, SHA-256d and the secp256k1 group are parameters in "
+            "theorems (laws listed next to each theorem) and lean/Bch/Prim in the driver; Go runtime, math/big (as Nat), bchec.")
+PROPS["C04"] = dict(
+    level_text="Refinement theorems from the byte-level model of extendedkey.go to an independent transcription of BIP32 over an abstract group; on every run the implementation is compared with both the model and the executable BIP32 spec (HMAC-SHA512 + secp256k1 in Lean) along generated paths incl. leading-zero scalars, depth 255 and neutered branches.",
+    level_note=_hd_note, assumptions=COMMON_ASSUME)
+PROPS["C05"] = dict(
+    level_text="Round-trip and accept-iff theorems for NewKeyFromString/String over the HD model; correspondence on derived keys and near-valid 82-byte payloads with recomputed checksums (bit/byte corruptions, scalar and point edge values, wrong lengths, leading '1').",
+    level_note=_hd_note, assumptions=COMMON_ASSUME)
